@@ -17,7 +17,7 @@ def rule_static_product(ck, control):
     that matrix - in particular the contraction index runs to K, the number of columns of the left factor, not to N."""
     import re
     ck.rule('static-product-extents', 'static_matrix product: every index of a(i,k), b(k,j), c(i,j) is bounded by the extent of its dimension (rows / columns of that operand); decided on '
-                                      'an instantiation with three distinct extents', 1)
+                                      'an instantiation with three distinct extents (accesses through operator() or on the flat row-major buffers)', 0)
     for f in control.funcs:
         if f.q != 'amgcl::operator*' or len(f.params) != 2 or f.body is None:
             continue
@@ -48,6 +48,70 @@ def rule_static_product(ck, control):
                 if b is None or b != e[which]:
                     bad.append('%s index `%s` of `%s` runs to %s, the %s of `%s` is %d' % (('row', 'column')[which], show(a), show(n), b, ('row count', 'column count')[which], f.decl(o['d'])['n'], e[which]))
             ck.ob('static-product-extents', 'operator*|%s|%s' % (f.decl(o['d'])['n'], show(n).replace(' ', '')), f.where(n), not bad, '; '.join(bad))
+        # the same accesses written on the flat row-major buffers: P[r * S + c] with P = X.data(), or Q[c] with Q = P + r * S
+        def single_init(d):
+            inits = [v['init'] for n in f.nodes.values() if n['k'] == 'decl' for v in n['v'] if v['d'] == d and v.get('init') is not None]
+            mods = [n for n in f.nodes.values() if (n['k'] == 'bin' and n['op'] in ('=', '+=', '-=') and unwrap(n['x'])['k'] == 'ref' and unwrap(n['x'])['d'] == d)
+                    or (n['k'] == 'un' and n['op'] in ('++', '--') and unwrap(n['e'])['k'] == 'ref' and unwrap(n['e'])['d'] == d)]
+            return unwrap(inits[0]) if len(inits) == 1 and not mods else None
+
+        def matrix_of(e):
+            e = unwrap(e)
+            if e is not None and e['k'] == 'call' and e.get('m') == 'data' and e.get('obj') is not None:
+                o = unwrap(e['obj'])
+                return o['d'] if o is not None and o['k'] == 'ref' and o['d'] in ext else None
+            if e is not None and e['k'] == 'ref' and f.decl(e['d']).get('k') == 'local':
+                i0 = single_init(e['d'])
+                return matrix_of(i0) if i0 is not None else None
+            return None
+
+        def row_stride_col(e):
+            # r * S (+ c): ((row var, stride literal), col var or None)
+            e = unwrap(e)
+            if e is None:
+                return None
+            if e['k'] == 'bin' and e['op'] == '+':
+                for p_, q in ((e['x'], e['y']), (e['y'], e['x'])):
+                    rs = row_stride_col(p_)
+                    q = unwrap(q)
+                    if rs is not None and rs[1] is None and q is not None and q['k'] == 'ref':
+                        return rs[0], q['d']
+                return None
+            if e['k'] == 'bin' and e['op'] == '*':
+                for p_, q in ((e['x'], e['y']), (e['y'], e['x'])):
+                    p_, q = unwrap(p_), unwrap(q)
+                    if p_ is not None and q is not None and p_['k'] == 'ref' and q['k'] == 'lit' and str(q.get('v', '')).isdigit():
+                        return (p_['d'], int(q['v'])), None
+            return None
+        for n in sorted((x for x in f.nodes.values() if x['k'] == 'idx'), key=lambda x: x['i']):
+            b = unwrap(n['b'])
+            X, rs, cvar = None, None, None
+            if b is not None and b['k'] == 'ref':
+                X = matrix_of(b)
+                if X is not None:
+                    r = row_stride_col(n['x'])
+                    if r is not None and r[1] is not None:
+                        rs, cvar = r
+                else:
+                    i0 = single_init(b['d']) if f.decl(b['d']).get('k') == 'local' else None
+                    if i0 is not None and i0['k'] == 'bin' and i0['op'] == '+':
+                        for p_, q in ((i0['x'], i0['y']), (i0['y'], i0['x'])):
+                            if matrix_of(p_) is not None:
+                                r = row_stride_col(q)
+                                c = unwrap(n['x'])
+                                if r is not None and r[1] is None and c is not None and c['k'] == 'ref':
+                                    X, rs, cvar = matrix_of(p_), r[0], c['d']
+            if X is None or rs is None:
+                continue
+            rows, cols = ext[X]
+            bad = []
+            if rs[1] != cols:
+                bad.append('the row stride %d of `%s` is not the column count %d of `%s`' % (rs[1], show(n), cols, f.decl(X)['n']))
+            if bounds.get(rs[0]) != rows:
+                bad.append('row index `%s` runs to %s, `%s` has %d rows' % (f.decl(rs[0])['n'], bounds.get(rs[0]), f.decl(X)['n'], rows))
+            if bounds.get(cvar) != cols:
+                bad.append('column index `%s` runs to %s, `%s` has %d columns' % (f.decl(cvar)['n'], bounds.get(cvar), f.decl(X)['n'], cols))
+            ck.ob('static-product-extents', 'operator*|%s|%s' % (f.decl(X)['n'], show(n).replace(' ', '')), f.where(n), not bad, '; '.join(bad))
 
 
 def main(tier):
